@@ -52,24 +52,33 @@ proof fn lemma_small_window_read(t: &RawTableInner, pos: int, b: int)
         if p < n {
             lemma_small_mod(p as nat, n as nat);
         } else {
-            // p >= WIDTH (padding bytes are EMPTY, not full): mirror of bucket p - WIDTH, and WIDTH % n == 0
-            assert(p >= Group::WIDTH);
+            // padding bytes are EMPTY, not full: p >= WIDTH, the mirror of bucket p - WIDTH
+            assert(p >= Group::WIDTH) by {
+                if p < Group::WIDTH {
+                    assert(t.ctrl@[p] == 0xFFu8);
+                }
+            }
             let j = p - Group::WIDTH;
+            assert(0 <= j < n);
             assert(t.ctrl@[Group::WIDTH + j] == t.ctrl@[j]);
             lemma_width_multiple(t);
-            lemma_mod_multiples_vanish((Group::WIDTH as int) / n, j, n);
-            lemma_small_mod(j as nat, n as nat);
+            // n is 4 or 8 and WIDTH is 8 or 16: (WIDTH + j) % n == j by constant arithmetic
+            if n == 4 {
+                assert((Group::WIDTH + j) % 4 == j);
+            } else {
+                assert(n == 8);
+                assert((Group::WIDTH + j) % 8 == j);
+            }
         }
     }
 }
-// for a table smaller than a group, WIDTH is a multiple of the bucket count
+// a table smaller than a group has 4 or 8 buckets
 proof fn lemma_width_multiple(t: &RawTableInner)
     requires t.shape(), t.nb() < Group::WIDTH,
-    ensures (Group::WIDTH as int) % t.nb() == 0, (Group::WIDTH as int) == ((Group::WIDTH as int) / t.nb()) * t.nb(),
+    ensures t.nb() == 4 || t.nb() == 8,
 {
     let m = t.bucket_mask;
     let m1: usize = (m + 1) as usize;
     assert(sub(m1, 1) == m);
     assert(m1 >= 4 && m1 < 16 && (m1 & sub(m1, 1)) == 0 ==> m1 == 4 || m1 == 8) by(bit_vector);
-    assert(t.nb() == 4 || t.nb() == 8);
 }
